@@ -571,3 +571,294 @@ fn kani_cover_eq(b: bool) {
     vcover!(b, "equal");
     vcover!(!b, "unequal");
 }
+
+/// B4: `FnGraphBuilder::build()` end to end from a symbolic call sequence
+/// (2 functions: every ordered pair absent / Logic / Contains, symbolic access
+/// declarations): the representation invariant the run-side harnesses assume
+/// (RepInv), ranks, and the augmentation oracles on the composed result.
+pub fn h_build(n: usize, with_acc: bool) {
+    use fn_graph::FnGraphBuilder;
+    let mut b = FnGraphBuilder::<Fx>::new();
+    let mut i = 0;
+    while i < N {
+        if i < n {
+            let mut acc = [ACC_NONE; K];
+            if with_acc {
+                let mut d = 0;
+                while d < K {
+                    acc[d] = nd::below(3);
+                    d += 1;
+                }
+            }
+            b.add_fn(Fx { id: i as u8, acc });
+        }
+        i += 1;
+    }
+    let mut user = [[0u8; N]; N];
+    let mut cnt = 0usize;
+    let mut a = 0;
+    while a < N {
+        let mut bb = 0;
+        while bb < N {
+            if a != bb && a < n && bb < n {
+                let c = nd::below(3);
+                let r = match c {
+                    1 => Some(b.add_logic_edge(ni(a), ni(bb))),
+                    2 => Some(b.add_contains_edge(ni(a), ni(bb))),
+                    _ => None,
+                };
+                if let Some(Ok(_)) = r {
+                    user[a][bb] = c;
+                    cnt += 1;
+                }
+            }
+            bb += 1;
+        }
+        a += 1;
+    }
+    let want = longest_chain(&user);
+    let mut up = [[false; N]; N];
+    let mut x = 0;
+    while x < N {
+        up[x][x] = true;
+        let mut y = 0;
+        while y < N {
+            if user[x][y] != 0 {
+                up[x][y] = true;
+            }
+            y += 1;
+        }
+        x += 1;
+    }
+    warshall(&mut up);
+
+    let g = b.build();
+
+    check_built_edges(&g.graph, n, &user, cnt, &up, &want);
+    // ranks() = longest chain
+    let ranks = g.ranks();
+    vassert!(ranks.len() == n, "C13: ranks() does not have one entry per function");
+    let mut i = 0;
+    while i < N {
+        if i < n && i < ranks.len() {
+            vassert!(ranks[i] == Rank(want[i]), "C13: ranks() of the built graph differs from the longest dependency chain");
+        }
+        i += 1;
+    }
+    check_repinv(&g, n);
+    vcover!(true, "reach: build() returned and every oracle was evaluated");
+}
+
+/// RepInv: the scheduling structures mirror the graph (same edges, same order,
+/// same kinds; reversed copy), predecessor counts are the degrees over all kinds.
+pub fn check_repinv(g: &fn_graph::FnGraph<Fx>, n: usize) {
+    let (gs, gr, counts) = fn_graph::verif_hooks::fn_graph_parts(g);
+    let edges = g.graph.raw_edges();
+    let (es, er) = (gs.raw_edges(), gr.raw_edges());
+    vassert!(gs.node_count() == n && gr.node_count() == n, "C02: scheduling structure lost a function");
+    vassert!(es.len() == edges.len() && er.len() == edges.len(), "C02: scheduling structure does not have exactly the edges of the graph");
+    let mut indeg = [0usize; N];
+    let mut outdeg = [0usize; N];
+    let mut e = 0;
+    while e < daggy_max_edges() {
+        if e < edges.len() && e < es.len() && e < er.len() {
+            let (s, t) = (edges[e].source().index(), edges[e].target().index());
+            vassert!(es[e].source().index() == s && es[e].target().index() == t && es[e].weight == edges[e].weight, "C02: forward scheduling structure differs from the graph (an ordering edge would be ignored)");
+            vassert!(er[e].source().index() == t && er[e].target().index() == s && er[e].weight == edges[e].weight, "C02: reverse scheduling structure is not the reversed graph");
+            let mut x = 0;
+            while x < N {
+                if x == t {
+                    indeg[x] += 1;
+                }
+                if x == s {
+                    outdeg[x] += 1;
+                }
+                x += 1;
+            }
+        }
+        e += 1;
+    }
+    vassert!(counts.incoming().len() == n && counts.outgoing().len() == n, "C02: predecessor counts do not have one entry per function");
+    let mut x = 0;
+    while x < N {
+        if x < n && x < counts.incoming().len() && x < counts.outgoing().len() {
+            vassert!(counts.incoming()[x] == indeg[x], "C02: incoming count differs from the number of incoming edges (all kinds)");
+            vassert!(counts.outgoing()[x] == outdeg[x], "C02: outgoing count differs from the number of outgoing edges (all kinds)");
+        }
+        x += 1;
+    }
+}
+
+/// B4b: building the same call sequence twice yields equal graphs with equal
+/// ranks; changing one function, one endpoint or one kind yields an unequal graph (C12).
+pub fn h_build_twice(n: usize) {
+    use fn_graph::FnGraphBuilder;
+    // one symbolic call sequence: per ordered pair absent / Logic / Contains; symbolic access
+    let mut acc = [[ACC_NONE; K]; N];
+    let mut i = 0;
+    while i < N {
+        let mut d = 0;
+        while d < K {
+            acc[i][d] = nd::below(3);
+            d += 1;
+        }
+        i += 1;
+    }
+    let mut calls = [[0u8; N]; N];
+    let mut a = 0;
+    while a < N {
+        let mut bb = 0;
+        while bb < N {
+            if a != bb && a < n && bb < n {
+                calls[a][bb] = nd::below(3);
+            }
+            bb += 1;
+        }
+        a += 1;
+    }
+    // the variation applied to the third build: 0 none, 1 a function payload, 2 a kind
+    let vary = nd::below(3);
+    let vf = nd::below(n as u8) as usize;
+    let build = |variant: bool| {
+        let mut b = FnGraphBuilder::<Fx>::new();
+        let mut i = 0;
+        while i < N {
+            if i < n {
+                let mut a = acc[i];
+                let mut id = i as u8;
+                if variant && vary == 1 && i == vf {
+                    // a different function with the same access declarations
+                    id = 100 + i as u8;
+                    a = acc[i];
+                }
+                b.add_fn(Fx { id, acc: a });
+            }
+            i += 1;
+        }
+        let mut changed_kind = false;
+        let mut a = 0;
+        while a < N {
+            let mut bb = 0;
+            while bb < N {
+                if a != bb && a < n && bb < n {
+                    let mut c = calls[a][bb];
+                    if variant && vary == 2 && c != 0 && !changed_kind {
+                        c = 3 - c;
+                        changed_kind = true;
+                    }
+                    let _ = match c {
+                        1 => Some(b.add_logic_edge(ni(a), ni(bb))),
+                        2 => Some(b.add_contains_edge(ni(a), ni(bb))),
+                        _ => None,
+                    };
+                }
+                bb += 1;
+            }
+            a += 1;
+        }
+        (b.build(), changed_kind)
+    };
+    let (g1, _) = build(false);
+    let (g2, _) = build(false);
+    vassert!(g1 == g2, "C12: building the same sequence of builder calls twice yields unequal graphs");
+    vassert!(g1.ranks() == g2.ranks(), "C12: building the same sequence twice yields different ranks");
+    let (g3, changed_kind) = build(true);
+    if vary == 1 || (vary == 2 && changed_kind) {
+        vassert!(g1 != g3, "C12: graphs built from different functions or edge kinds compare equal");
+    } else {
+        vassert!(g1 == g3, "C12: equal call sequences compare unequal");
+    }
+    vcover!(vary == 2 && changed_kind, "reach: a kind was changed");
+    vcover!(true, "reach: three graphs were built and compared");
+}
+
+/// B4c: `FnGraph::eq` (C12, last clause): two built graphs assembled from the
+/// same symbolic description compare equal; a description that differs in one
+/// function, one edge kind, one edge direction or one missing edge compares unequal.
+pub fn h_eq(n: usize) {
+    use fn_graph::{EdgeCounts, FnGraph};
+    // description: per unordered pair {i, j}: 0 none, 1 i->j, 2 j->i, with a kind; per node an id payload
+    let mut dir = [[0u8; N]; N];
+    let mut kind = [[0u8; N]; N];
+    let mut i = 0;
+    while i < N {
+        let mut j = i + 1;
+        while j < N {
+            if j < n {
+                dir[i][j] = nd::below(3);
+                kind[i][j] = nd::below(3);
+            }
+            j += 1;
+        }
+        i += 1;
+    }
+    // the single variation: 0 none, 1 payload of function vf, 2 kind of pair vp, 3 direction of pair vp, 4 pair vp removed
+    let vary = nd::below(5);
+    let vf = nd::below(n as u8) as usize;
+    let vi = nd::below(n as u8) as usize;
+    let vj = nd::below(n as u8) as usize;
+    nd::assume(vi < vj);
+    let mut effective = false;
+    let mk = |variant: bool, effective: &mut bool| -> FnGraph<Fx> {
+        let mut g = Dag::<Fx, Edge, FnIdInner>::new();
+        let mut gs = Dag::<(), Edge, FnIdInner>::new();
+        let mut gr = Dag::<(), Edge, FnIdInner>::new();
+        let mut a = 0;
+        while a < N {
+            if a < n {
+                let id = if variant && vary == 1 && a == vf { 50 + a as u8 } else { a as u8 };
+                if variant && vary == 1 && a == vf {
+                    *effective = true;
+                }
+                g.add_node(Fx { id, acc: [ACC_NONE; K] });
+                gs.add_node(());
+                gr.add_node(());
+            }
+            a += 1;
+        }
+        let mut a = 0;
+        while a < N {
+            let mut b = a + 1;
+            while b < N {
+                if b < n {
+                    let mut d = dir[a][b];
+                    let mut k = kind[a][b];
+                    if variant && a == vi && b == vj && d != 0 {
+                        if vary == 2 {
+                            k = (k + 1) % 3;
+                            *effective = true;
+                        } else if vary == 3 {
+                            d = 3 - d;
+                            *effective = true;
+                        } else if vary == 4 {
+                            d = 0;
+                            *effective = true;
+                        }
+                    }
+                    if d != 0 {
+                        let (x, y) = if d == 1 { (a, b) } else { (b, a) };
+                        let r = g.add_edge(ni(x), ni(y), kind_of(k));
+                        nd::assume(r.is_ok());
+                        let _ = gs.add_edge(ni(x), ni(y), kind_of(k));
+                        let _ = gr.add_edge(ni(y), ni(x), kind_of(k));
+                    }
+                }
+                b += 1;
+            }
+            a += 1;
+        }
+        fn_graph::verif_hooks::fn_graph_from_parts(g, gs, gr, Vec::new(), EdgeCounts::new(Vec::new(), Vec::new()))
+    };
+    let mut unused = false;
+    let g1 = mk(false, &mut unused);
+    let g2 = mk(false, &mut unused);
+    let g3 = mk(true, &mut effective);
+    vassert!(g1 == g2, "C12: graphs with equal functions and equal edges compare unequal");
+    if effective {
+        vassert!(g1 != g3, "C12: graphs that differ in a function, an edge endpoint or an edge kind compare equal");
+    } else {
+        vassert!(g1 == g3, "C12: graphs with equal functions and equal edges compare unequal");
+    }
+    vcover!(effective && vary == 3, "reach: an edge direction was flipped");
+    vcover!(true, "reach: three graphs compared");
+}
